@@ -18,6 +18,7 @@
 import WR.C09.LemmasGrid
 import WR.C09.LemmasIIB
 import WR.C09.LemmasBII
+import WR.C09.LemmasCompose
 import WR.C09.LemmasFlex
 import WR.C09.LemmasTable
 namespace WR.Props.C09
@@ -158,6 +159,15 @@ theorem running_inline_split :
   running_inline_split_witness
 
 example : allAll linesAlone splitWitness = true := by decide
+
+/-- InlineInBlock then BlockInInline, chained: on a tree of the shape `preIIB` without running inline
+    boxes both passes succeed and the result satisfies the block-container clause and has clean lines -/
+theorem inline_passes_wf (g : Box) (h : allN preIIB g = true) (hr : allN noRunInl g = true) :
+    ∃ i o, inlineInBlock g = .ok i ∧ blockInInline i = .ok o ∧ o.ty = g.ty ∧ o.a = g.a ∧
+      allN bcOK o = true ∧ allN linesClean o = true :=
+  WR.C09.inline_passes_wf g h hr
+
+example : allN preIIB exCompose = true ∧ allN noRunInl exCompose = true := by decide
 
 /-! ## 3. Flex and grid items -/
 
